@@ -25,7 +25,7 @@ def place_demo(seed, wt):
     else by package clause."""
     placed = []
     for f in sorted(glob.glob(os.path.join(seed, 'demo', '**', '*'), recursive=True)):
-        if os.path.isdir(f):
+        if os.path.isdir(f) or not f.endswith('.go'):
             continue
         src = open(f, errors='replace').read()
         rel = os.path.relpath(f, os.path.join(seed, 'demo'))
